@@ -7,6 +7,7 @@ import (
 	"fmt"
 	"net/http"
 	"net/http/httptest"
+	"os"
 	"strconv"
 	"strings"
 
@@ -137,7 +138,7 @@ func judge(sc Scenario, base, mw Obs) (string, string) {
 		return "", ""
 	case t.responseStage():
 		if mw.Client.Body != "" {
-			return classifyLeak(sc, mw),
+			return classifyLeak(sc, base, mw),
 				fmt.Sprintf("the transaction interrupted at %s (%s, status %d) but the client received %d handler body byte(s) %q (status %d)", t.Stage, t.Action, t.Status, len(mw.Client.Body), mw.Client.Body, mw.Client.Status)
 		}
 		return "", ""
@@ -179,12 +180,34 @@ func short(s string) string {
 	return s
 }
 
-func classifyLeak(sc Scenario, mw Obs) string {
-	return fmt.Sprintf("response-interruption:body-leaked:stage=%s:unclassified:%s", mw.Trace.Stage, key(sc))
+func classifyLeak(sc Scenario, base, mw Obs) string {
+	// Root cause 1: Write calls WriteHeader(200) implicitly, the phase-3 rules
+	// interrupt inside it, and Write carries on handing its bytes downstream.
+	// Feature: interruption at P3, the first header-sending operation of the
+	// program is a body write, and exactly that operation's bytes leaked.
+	if i := firstHeaderOp(sc.Prog, "strict"); mw.Trace.Stage == "P3" && i < len(sc.Prog) {
+		n := 0
+		switch sc.Prog[i] {
+		case opW1:
+			n = 1
+		case opW3:
+			n = 3
+		case opWL:
+			n = sc.Conf.RespLimit
+		case opRF4:
+			n = 4
+		case opRead, opRead1, opRead3:
+			n = len(strconv.Itoa(sc.Body.Size))
+		}
+		if n > 0 && len(base.Client.Body) >= n && mw.Client.Body == base.Client.Body[:n] {
+			return "response-interruption:body-leaked:phase3-interruption-inside-implicit-WriteHeader-of-Write"
+		}
+	}
+	return fmt.Sprintf("response-interruption:body-leaked:stage=%s:unclassified:%s", mw.Trace.Stage, ukey(sc))
 }
 
 func classifyRead(sc Scenario, got, want string) string {
-	return "passthrough:request-body:unclassified:" + key(sc)
+	return "passthrough:request-body:unclassified:" + ukey(sc)
 }
 
 func classifyDiff(sc Scenario, base, mw Obs) string {
@@ -205,7 +228,7 @@ func classifyDiff(sc Scenario, base, mw Obs) string {
 			return "passthrough:header-changed-after-WriteHeader-reaches-client"
 		}
 	}
-	return "passthrough:" + field + ":unclassified:" + key(sc)
+	return "passthrough:" + field + ":unclassified:" + ukey(sc)
 }
 
 // lateHeadersOnly reports whether the two header blocks differ exactly by X-A
@@ -245,6 +268,16 @@ func lateHeadersOnly(sc Scenario, base, mw Obs) bool {
 func key(sc Scenario) string {
 	b, _ := json.Marshal(sc)
 	return string(b)
+}
+
+// ukey is the tail of an "unclassified" signature: the whole case, or (triage
+// aid, C18_COARSE=1) only its coarse features.
+func ukey(sc Scenario) string {
+	if os.Getenv("C18_COARSE") != "" {
+		return fmt.Sprintf("coarse:%s:writer=%s:ct=%s:rule=%v:req=%v/%s/%d:resp=%v/%s/%s:body=%v:ops=%d", sc.Space, sc.Writer, sc.CT, sc.Conf.Rule, sc.Conf.ReqAccess, sc.Conf.ReqAction, sc.Conf.ReqMem,
+			sc.Conf.RespAccess, sc.Conf.RespAction, sc.Conf.Mime, sc.Body, len(sc.Prog))
+	}
+	return key(sc)
 }
 
 // ---------------------------------------------------------------------------
